@@ -332,7 +332,7 @@ func (r *rw) expr(e *ast.Expr) {
 		}
 		if se, ok := x.Fun.(*ast.SelectorExpr); ok {
 			if r.isPkg(se.X) {
-				if r.opt.Shim {
+				if r.opt.Shim && r.noYield == 0 {
 					pkg := r.pkgName[se.X.(*ast.Ident).Name]
 					var m map[string]string
 					switch pkg {
@@ -351,7 +351,7 @@ func (r *rw) expr(e *ast.Expr) {
 						r.stats.Shims++
 					}
 				}
-			} else if r.opt.ShimMethods {
+			} else if r.opt.ShimMethods && r.noYield == 0 {
 				if nm, ok := methodShim[se.Sel.Name]; ok && arityOK(se.Sel.Name, len(x.Args)) && x.Ellipsis == token.NoPos {
 					r.used = true
 					x.Fun = &ast.SelectorExpr{X: ast.NewIdent("verifrt"), Sel: ast.NewIdent(nm)}
